@@ -1,2 +1,43 @@
-(** C05 - placeholder *)
-From VG Require Import Model.Serve.
+(** C05 - Application headers and trailers survive transcoding in both directions.
+    Statements only; proofs in Proofs/HeaderProofs.v. *)
+From VG Require Import Model.Bytes Model.Headers Model.RespMeta Model.Timeout Model.Request Model.Serve Gen.Generated.
+From VG Require Import Proofs.HeaderProofs.
+Open Scope Z_scope.
+
+(** Request direction: a header that is not one of the protocols' own control headers reaches the
+    backend's handler with exactly the values the client sent (all of them, in order), whatever
+    the client's and the backend's protocol. *)
+Theorem C05_request_headers_survive : forall pf ff t r h a cx o k,
+  app_key k -> serve_head pf ff t r = DHandle h a cx o -> hvalues k (bh_hdr h) = hvalues k (q_hdr r).
+Proof. exact backend_sees_app_headers. Qed.
+Print Assumptions C05_request_headers_survive.
+
+(** Response direction: application headers set by the handler are in the head the client gets. *)
+Theorem C05_response_headers_survive : forall c m h k,
+  resp_app_key k -> rm_end m = None -> hvalues k (ho_hdrs (add_response_headers c m h)) = hvalues k h.
+Proof. exact response_head_keeps_app_headers. Qed.
+Print Assumptions C05_response_headers_survive.
+
+(** Trailers go where the client's protocol puts them: HTTP trailers for gRPC, the trailer frame
+    for gRPC-Web, the end-stream message for Connect streams ... *)
+Theorem C05_trailer_position_streaming : forall c lim elen e,
+  match c with
+  | CGrpc => encode_end c lim elen e false = EndTrailers e
+  | CGrpcWeb => encode_end c lim elen e false = EndBody e
+  | CConnectStream => elen e <= lim -> encode_end c lim elen e false = EndBody e
+  | _ => True
+  end.
+Proof. exact trailers_go_where_the_protocol_says. Qed.
+Print Assumptions C05_trailer_position_streaming.
+
+(** ... and Trailer- prefixed headers for Connect unary, with every value. *)
+Theorem C05_trailer_position_connect_unary : forall c m h e k vs,
+  match c with CConnectPost | CConnectGet => True | _ => False end ->
+  rm_end m = Some e -> NoDup (map fst (re_trailers e)) -> In (k, vs) (re_trailers e) ->
+  bytes_eqb (s2b "Accept-Encoding") (s2b "Trailer-" ++ k) = false ->
+  hvalues (s2b "Trailer-" ++ k) (ho_hdrs (add_response_headers c m h)) = vs.
+Proof. exact connect_unary_trailers_in_head. Qed.
+Print Assumptions C05_trailer_position_connect_unary.
+
+Example C05_ex_app_key : app_key (s2b "X-Custom-Bin") /\ app_key (s2b "Authorization") /\ resp_app_key (s2b "Set-Cookie").
+Proof. repeat split; reflexivity. Qed.
